@@ -34,6 +34,12 @@ def subst_expr(e, m):
         return SatAdd(subst_expr(e.a, m), subst_expr(e.b, m), e.cap)
     if isinstance(e, MinMax):
         return MinMax(e.which, subst_expr(e.a, m), subst_expr(e.b, m))
+    if isinstance(e, LetIn):
+        r = m.get(e.var)
+        if isinstance(r, str):
+            return LetIn(r, subst_expr(e.init, m), subst_expr(e.body, m))
+        inner = {k: v for k, v in m.items() if k != e.var}      # shadowed inside the block body
+        return LetIn(e.var, subst_expr(e.init, m), subst_expr(e.body, inner))
     if isinstance(e, Cmp):
         return Cmp(e.op, subst_expr(e.a, m), subst_expr(e.b, m))
     if isinstance(e, BoolOp):
@@ -235,8 +241,16 @@ def gen_macro_program(rng, dom=4):
                 else:
                     args.append(AExpr(K(rng.randrange(dom))))
             conds = []
-            if bound_locs and rng.random() < 0.3:
-                conds.append(If(Cmp(rng.choice(['!=', '<', '<=']), V(rng.choice(bound_locs)), K(rng.randrange(dom)))))
+            if bound_locs and rng.random() < 0.4:
+                l = rng.choice(bound_locs)
+                lhs = V(l)
+                r2 = rng.random()
+                if r2 < 0.35:
+                    # a block that re-binds the macro-local name, using the macro-local in its own initialiser
+                    lhs = LetIn(l, Bin('+', V(l), K(rng.randrange(1, dom)), dom), Bin('+', V(l), V(rng.choice(bound_locs)), dom))
+                elif r2 < 0.5:
+                    lhs = int_expr(rng, bound_locs, dom)
+                conds.append(If(Cmp(rng.choice(['!=', '<', '<=']), lhs, K(rng.randrange(dom)))))
             body.append(Clause(rn, args, conds))
         # every parameter must be mentioned (an unused ident parameter would be a call-site variable that is never bound)
         for p, kind in params:
